@@ -64,5 +64,11 @@ package astcomp
 //@   exits any
 //@   loop 1: invariant ghost(pushed) == old(ghost(pushed)) + 2 && ghost(popped) == old(ghost(popped))
 //@   assert_before_call CompileStat: ghost(pushed) == old(ghost(pushed)) + 2 && ghost(popped) == old(ghost(popped))
+// The loop ends exactly when the first value returned by the iterator is nil
+// (manual 3.3.5) - not when it is false: the value is compared with a nil
+// constant and the exit jump is taken when the comparison holds.
+//@   assert_before_call emitLoadConst#1: typeis($k, ir.NilType) && $reg == testReg
+//@   assert_before_call emitInstr#1: typeis($instr, ir.Combine) && asType($instr, ir.Combine).Op == ops.OpEq && asType($instr, ir.Combine).Dst == testReg && ((asType($instr, ir.Combine).Lsrc == var1 && asType($instr, ir.Combine).Rsrc == testReg) || (asType($instr, ir.Combine).Lsrc == testReg && asType($instr, ir.Combine).Rsrc == var1))
+//@   assert_before_call emitInstr#2: typeis($instr, ir.JumpIf) && asType($instr, ir.JumpIf).Cond == testReg && !asType($instr, ir.JumpIf).Not && asType($instr, ir.JumpIf).Label == endLbl
 //@   assert_before_call emitInstr#4: typeis($instr, ir.Jump) && ghost(pushed) == old(ghost(pushed)) + 2 && ghost(popped) == old(ghost(popped)) + 1
 //@   ensures ghost(pushed) == old(ghost(pushed)) + 2 && ghost(popped) == old(ghost(popped)) + 2
